@@ -734,6 +734,11 @@ def run(ctx, out):
         if rng.random() < (0.35 if ctx.quick else 1.0):
             check_case(ctx, out, gs.with_maps(rng, desc), 'index_maps')
             out.count('index_map_cases')
+        # integer-typed R, C, L (Python int / numpy integers): the same circuit must come out (seeded change C11-5B)
+        if rng.random() < (0.3 if ctx.quick else 1.0):
+            di = gs.with_int_values(rng, desc)
+            if gs.nondegenerate(ctx.driver, di)[0]:
+                check_case(ctx, out, di, 'int_values'); out.count('int_value_cases')
         # source-kind stream: the same circuit with ideal ac / periodic voltage sources (w = 0 and w ≠ 0) and ac
         # current sources (w = 0), nominal phases in all quadrants — every ideal source kind the builder accepts
         if rng.random() < (0.3 if ctx.quick else 1.0):
